@@ -8,6 +8,7 @@ import (
 	"net"
 	"os"
 	"runtime"
+	"sort"
 	"strings"
 	"sync"
 	"syscall"
@@ -36,6 +37,7 @@ type lcSrv struct {
 	name       string
 	graceful   bool
 	listenFail bool
+	stopErr    bool // a graceful server whose Stop reports an error (after it has stopped)
 }
 
 type lcCfg struct {
@@ -80,6 +82,7 @@ type lcRig struct {
 	waitRet   bool
 	stopped   bool
 	underLock int
+	hooked    map[string]bool
 	rush      bool // a signal handler is waiting for the shutdown lock: callbacks under it do not park
 }
 
@@ -115,6 +118,7 @@ type fakeServer struct {
 	inst, name string
 	graceful   bool
 	listenFail bool
+	stopErr    bool
 	stopCh     chan struct{}
 	once       sync.Once
 	serving    bool
@@ -148,10 +152,24 @@ func (g gracefulFake) Stop() error {
 	}
 	r.ev("stop", g.inst, g.name)
 	g.once.Do(func() { close(g.stopCh) })
+	if g.stopErr && !r.cleanup {
+		// (as a net/http server does when the grace period ran out on a busy connection)
+		r.c.Fault("server-stop-reports-error")
+		return fmt.Errorf("injected: context deadline exceeded while stopping %s", g.name)
+	}
 	return nil
 }
 func (g gracefulFake) Address() string                          { return "fake:" + g.name }
 func (g gracefulFake) WrapListener(l net.Listener) net.Listener { return l }
+
+func hasArg(args []string, a string) bool {
+	for _, x := range args {
+		if x == a {
+			return true
+		}
+	}
+	return false
+}
 
 func init() {
 	casket.RegisterServerType("fake", casket.ServerType{
@@ -174,6 +192,17 @@ func init() {
 			c.OnRestartFailed(mk("restartfailed"))
 			c.OnShutdown(mk("shutdown"))
 			c.OnFinalShutdown(mk("finalshutdown"))
+			// an event hook, as the 'on' directive registers them
+			hook := "observer-" + label
+			if !r.hooked[hook] {
+				r.hooked[hook] = true
+				casket.RegisterEventHook(hook, func(ev casket.EventName, info interface{}) error {
+					if ev == casket.ShutdownEvent && lc == r && !r.cleanup {
+						r.ev("hook:shutdown", label, "")
+					}
+					return nil
+				})
+			}
 		}
 		return nil
 	}})
@@ -185,7 +214,7 @@ func init() {
 				return c.ArgErr()
 			}
 			s := &fakeServer{rig: ctx.rig, inst: args[0], name: args[1], graceful: args[2] == "graceful",
-				listenFail: len(args) > 3 && args[3] == "listenfail", stopCh: make(chan struct{})}
+				listenFail: hasArg(args[3:], "listenfail"), stopErr: hasArg(args[3:], "stoperr"), stopCh: make(chan struct{})}
 			ctx.srvs = append(ctx.srvs, s)
 			ctx.rig.mu.Lock()
 			ctx.rig.servers = append(ctx.rig.servers, s)
@@ -234,6 +263,9 @@ func (r *lcRig) text(cfg *lcCfg) string {
 		if s.listenFail {
 			lf = " listenfail"
 		}
+		if s.stopErr {
+			lf += " stoperr"
+		}
 		fmt.Fprintf(&b, "\tsrv %s %s %s%s\n", cfg.label, s.name, g, lf)
 	}
 	if cfg.kind == rkSetup {
@@ -249,7 +281,9 @@ func (r *lcRig) genCfg(kind int) *lcCfg {
 	r.loadSeq++
 	n := 1 + r.st.Draw(3)
 	for i := 0; i < n; i++ {
-		cfg.srvs = append(cfg.srvs, lcSrv{name: fmt.Sprintf("s%d", i), graceful: r.st.Draw(4) != 0})
+		sv := lcSrv{name: fmt.Sprintf("s%d", i), graceful: r.st.Draw(4) != 0}
+		sv.stopErr = sv.graceful && r.st.Draw(6) == 0
+		cfg.srvs = append(cfg.srvs, sv)
 	}
 	if kind == rkListen {
 		cfg.srvs[r.st.Draw(n)].listenFail = true
@@ -329,7 +363,7 @@ func (r *lcRig) callback(label, kind string) error {
 }
 
 func runLifecycle(c *sim.Ctl) {
-	r := &lcRig{c: c, st: c.T.Stream("struct"), sigChans: map[os.Signal][]chan<- os.Signal{}, shutSig: -1}
+	r := &lcRig{c: c, st: c.T.Stream("struct"), sigChans: map[os.Signal][]chan<- os.Signal{}, shutSig: -1, hooked: map[string]bool{}}
 	lc = r
 	casket.VerifReset()
 	logw := &lockedBuf{}
@@ -841,6 +875,25 @@ func (r *lcRig) check() {
 			}
 			c.Probe("process-shutdown-checked")
 		}
+	}
+	// (h) the shutdown event reaches each registered event hook (what the 'on
+	// shutdown' directive runs) at most once, however many signals arrive
+	hookSeen := map[string]int{}
+	for _, e := range tr {
+		if e.kind == "hook:shutdown" {
+			hookSeen[e.inst]++
+		}
+	}
+	var hookLabels []string
+	for l := range hookSeen {
+		hookLabels = append(hookLabels, l)
+	}
+	sort.Strings(hookLabels)
+	for _, l := range hookLabels {
+		if hookSeen[l] > 1 {
+			c.Violate("C16/shutdown-event-repeated", "", "the shutdown event reached the event hook registered by %s %d times (signals sent: INT x%d, shutdown began with signal index %d)", l, hookSeen[l], r.nINT, r.shutSig)
+		}
+		c.Probe("shutdown-event-hook-observed")
 	}
 	// (i) Wait returns only after every server of the lineage stopped serving
 	for i, e := range tr[:end] {
